@@ -556,6 +556,18 @@ Proof.
   - apply spec_parts_rebuild.
 Qed.
 
+(* the four helpers are the RFC 7622 section 3.2 split *)
+Lemma split_is_rfc7622 : forall j, nul_free j ->
+  jid_bare j = JStr (spec_bare j) /\ jid_node j = ostr (spec_node j) /\
+  jid_domain j = JStr (spec_domain j) /\ jid_resource j = ostr (spec_resource j).
+Proof.
+  intros j H. repeat split.
+  - apply jid_bare_eq; assumption.
+  - apply jid_node_eq; assumption.
+  - apply jid_domain_eq; assumption.
+  - apply jid_resource_eq; assumption.
+Qed.
+
 (* the bare JID is the string without its resource *)
 Lemma bare_is_prefix : forall j, nul_free j ->
   exists b,
@@ -732,4 +744,62 @@ Lemma new_no_oob : forall n d r,
 Proof.
   intros n d r Hn Hd Hr. rewrite (new_decides n d r Hn Hd Hr).
   destruct d; [destruct (spec_new_ok _ _ _)|]; discriminate.
+Qed.
+
+(* ------------------------------------------------------------------------- *)
+(* 7. The hypotheses of the statements are satisfiable (and the odd inputs)  *)
+(* ------------------------------------------------------------------------- *)
+
+(* "a@b/c@d/e" *)
+Example ex_split :
+  let j := [97; 64; 98; 47; 99; 64; 100; 47; 101] in
+  nul_free j /\ jid_bare j = JStr [97; 64; 98] /\ jid_node j = JStr [97] /\
+  jid_domain j = JStr [98] /\ jid_resource j = JStr [99; 64; 100; 47; 101] /\
+  bare_part j [97; 64; 98].
+Proof.
+  cbv zeta. split; [unfold nul_free; cbn [In]; lia|].
+  repeat split; try (vm_compute; reflexivity).
+  right. exists [99; 64; 100; 47; 101]. split; [reflexivity|]. cbn [In]. unfold SLASH. lia.
+Qed.
+
+(* "@d"  "n@"  "/r"  ""  "a@b/" : empty parts are returned as empty strings, absent ones as NULL *)
+Example ex_odd :
+  (jid_node [64; 100] = JStr [] /\ jid_domain [64; 100] = JStr [100] /\ jid_resource [64; 100] = JNull) /\
+  (jid_node [110; 64] = JStr [110] /\ jid_domain [110; 64] = JStr [] /\ jid_resource [110; 64] = JNull) /\
+  (jid_node [47; 114] = JNull /\ jid_domain [47; 114] = JStr [] /\ jid_resource [47; 114] = JStr [114] /\
+   jid_bare [47; 114] = JStr []) /\
+  (jid_node [] = JNull /\ jid_domain [] = JStr [] /\ jid_resource [] = JNull /\ jid_bare [] = JStr []) /\
+  (jid_node [97; 64; 98; 47] = JStr [97] /\ jid_domain [97; 64; 98; 47] = JStr [98] /\
+   jid_resource [97; 64; 98; 47] = JStr [] /\ jid_bare [97; 64; 98; 47] = JStr [97; 64; 98]).
+Proof. vm_compute. repeat split. Qed.
+
+(* parts of exactly 1023 bytes are accepted, 1024 refused *)
+Example ex_new_limits :
+  let p := repeat 97 (Z.to_nat 1023) in
+  let q := repeat 97 (Z.to_nat 1024) in
+  jid_new (Some p) (Some p) (Some p) = JStr (p ++ [64] ++ p ++ [47] ++ p) /\
+  jid_new (Some q) (Some p) (Some p) = JNull /\
+  jid_new (Some p) (Some q) (Some p) = JNull /\
+  jid_new (Some p) (Some p) (Some q) = JNull /\
+  jid_new None None None = JNull /\
+  jid_new (Some [97; 58]) (Some [98]) None = JNull.
+Proof. vm_compute. repeat split. Qed.
+
+Example ex_new_hyps :
+  let n := Some [110] in let d := [100] in let r := Some [114] in
+  nul_free_opt n /\ nul_free d /\ nul_free_opt r /\
+  chars_free [34; 38; 39; 47; 58; 60; 62; 64] n /\ ~ In 47 d /\ ~ In 64 d /\
+  opt_len_le n 1023 /\ zlen d <= 1023 /\ opt_len_le r 1023.
+Proof.
+  cbv zeta. unfold nul_free_opt, nul_free, chars_free, opt_len_le, zlen. cbn [In length].
+  repeat split; lia.
+Qed.
+
+Example ex_refuse_hyps :
+  (exists l c, Some [97; 58] = Some l /\ In c l /\ In c [34; 38; 39; 47; 58; 60; 62; 64]) /\
+  opt_len_gt (Some (repeat 97 (Z.to_nat 1024))) 1023.
+Proof.
+  split.
+  - exists [97; 58], 58. cbn [In]. repeat split; auto 10.
+  - unfold opt_len_gt, zlen. rewrite repeat_length. lia.
 Qed.
